@@ -18,6 +18,7 @@ Proof.
   - constructor.
   - exact Hh.
   - lia.
+  - constructor.
 Qed.
 
 Lemma step_inv s st : inv s -> valid_step st -> inv (step_state s st).
